@@ -3,7 +3,8 @@
 Kernels under contract (real source, symbolic array lengths, ascending and descending grids):
   tools/grid.py::enclosing_points_1d              bracketing indices, clipping outside the grid
   interpolate/general.py::interpolation_weights_1d weights (1-t, t), t in [0,1), end point, NaN outside, nearest
-  interpolate/nd_interp.py::NdInterpolator._data_interpolator   (rank 1 and 2, interpolated axis in each position)
+  interpolate/nd_interp.py::NdInterpolator._data_interpolator / interpolate   (rank 1, 2, 3 with the interpolated axis in each
+                                                   position; rank 4 with the interpolated axis second; passive axes of length 2)
 """
 from fractions import Fraction
 from pyvc.api import *
@@ -279,8 +280,34 @@ weights.options["result"] = lambda mk, a: mk.array("weights", (2, mk.st.deref(a.
 
 # ------------------------------------------------------------------ NdInterpolator.interpolate (one interpolated coordinate)
 ND = "interpolate/nd_interp.py::NdInterpolator."
-LAYOUTS = {"rank1": ("t",), "rank2,axis0": ("t", "p"), "rank2,axis1": ("p", "t")}
-NPASSIVE = 2     # length of the passive axis in the rank-2 instances (all values symbolic)
+LAYOUTS = {"rank1": ("t",), "rank2,axis0": ("t", "p"), "rank2,axis1": ("p", "t")}      # the rank-1/2 instances (also used by C14)
+PASSIVE_NAMES = ("p", "q", "s")
+NPASSIVE = 2     # length of every passive axis in the instances of rank >= 2 (all values symbolic)
+
+
+def layout_name(rank, axis):
+    return "rank1" if rank == 1 else f"rank{rank},axis{axis}"
+
+
+def layout_dims(rank, axis):
+    """dimension names of a layout: "t" at the interpolated position, p, q, s on the passive ones in order"""
+    names = iter(PASSIVE_NAMES)
+    return tuple("t" if k == axis else next(names) for k in range(rank))
+
+
+RANK3 = {layout_name(3, ax): layout_dims(3, ax) for ax in range(3)}
+RANK4 = {layout_name(4, 1): layout_dims(4, 1)}          # one rank-4 instance (cost): interpolated axis second
+ALL_LAYOUTS = {**LAYOUTS, **RANK3, **RANK4}
+
+
+def layout_shape(layout, n):
+    return tuple(n if d == "t" else NPASSIVE for d in ALL_LAYOUTS[layout])
+
+
+def layout_of(coord, name):
+    """layout label of an interpolator with dimension names `coord` and interpolated dimension `name`"""
+    coord = list(coord)
+    return layout_name(len(coord), coord.index(name))
 
 
 def _find_nested(fn_node, name):
@@ -294,9 +321,7 @@ def _find_nested(fn_node, name):
 def _p_nd(layout, nearest):
     def p(mk):
         n, m = mk.size("n"), mk.size("m")
-        dims = LAYOUTS[layout]
-        shape = tuple(n if d == "t" else NPASSIVE for d in dims)
-        return {"xp": mk.array("xp", (n,)), "x": mk.array("x", (m,)), "y": mk.array("y", shape, "xreal"),
+        return {"xp": mk.array("xp", (n,)), "x": mk.array("x", (m,)), "y": mk.array("y", layout_shape(layout, n), "xreal"),
                 "layout": layout, "nearest": nearest}
     return p
 
@@ -313,7 +338,7 @@ def _nd_object(interp, st, fv, args):
     from pyvc.values import FuncVal, CArr
     from pyvc.interp import Env
     cname = args.get("coordinate_name", "t")       # C14 re-uses this with a periodic coordinate name
-    dims = tuple(cname if d == "t" else d for d in LAYOUTS[args["layout"]])
+    dims = tuple(cname if d == "t" else d for d in ALL_LAYOUTS[args["layout"]])
     dsmod, outer, _ = source.locate("interpolate/dataset.py::interpolate_dataset_along_axis")
     clos = Env({"dimensions": st.alloc(list(dims), "list"), "data_set": st.alloc({"v": args["y"]}, "dict"), "variable": "v"}, module=dsmod)
     get_data = FuncVal(dsmod, _find_nested(outer, "get_data"), "get_data", closure=clos)
@@ -332,11 +357,12 @@ def _nd_native(kw, inst):
     import xarray
     from ocean_science_utilities.interpolate.dataset import interpolate_dataset_along_axis
     cname = kw.get("coordinate_name", "t")
-    dims = tuple(cname if d == "t" else d for d in LAYOUTS[kw["layout"]])
+    dims = tuple(cname if d == "t" else d for d in ALL_LAYOUTS[kw["layout"]])
     coords = {cname: np.asarray(kw["xp"], dtype=float)}
-    if "p" in dims:
-        coords["p"] = np.arange(NPASSIVE, dtype=float)
-    ds = xarray.Dataset({"v": (dims, np.asarray(kw["y"], dtype=float)), "untouched": (("q",), np.array([1.0, 2.0, 3.0]))}, coords=coords)
+    for d in dims:
+        if d != cname:
+            coords[d] = np.arange(NPASSIVE, dtype=float)
+    ds = xarray.Dataset({"v": (dims, np.asarray(kw["y"], dtype=float)), "untouched": (("elsewhere",), np.array([1.0, 2.0, 3.0]))}, coords=coords)
     out = interpolate_dataset_along_axis(np.asarray(kw["x"], dtype=float), ds, coordinate_name=cname, nearest_neighbour=bool(kw["nearest"]))
     assert "untouched" in out and np.array_equal(out["untouched"].values, ds["untouched"].values), "variable without the coordinate must pass through"
     assert list(out["v"].dims) == list(dims) and np.array_equal(out["v"].coords[cname].values, np.asarray(kw["x"], dtype=float))
@@ -344,17 +370,22 @@ def _nd_native(kw, inst):
 
 
 def _cell(arr, layout, i, q):
-    """data / result cell: position i on the interpolated axis, q on the passive one (ignored for rank 1)"""
-    if layout == "rank1":
-        return arr[i]
-    return arr[i, q] if layout == "rank2,axis0" else arr[q, i]
+    """data / result cell: position i on the interpolated axis, q = passive indices in axis order (a tuple; a bare int for
+    one passive axis; ignored for rank 1)"""
+    q = iter((q,) if isinstance(q, int) else tuple(q))
+    ix = tuple(i if d == "t" else next(q) for d in ALL_LAYOUTS[layout])
+    return arr[ix[0]] if len(ix) == 1 else arr[ix]
+
+
+def _passive_range(layout):
+    """every combination of passive indices of the layout (one empty combination for rank 1)"""
+    import itertools
+    return list(itertools.product(range(NPASSIVE), repeat=len(ALL_LAYOUTS[layout]) - 1))
 
 
 def _slice_valid(y, layout, i):
     """node validity at slice level: every passive entry of the node's slice is present (see NOTES-C13: F12)"""
-    if layout == "rank1":
-        return notnan(y[i])
-    return And(*[notnan(_cell(y, layout, i, q)) for q in range(NPASSIVE)])
+    return And(*[notnan(_cell(y, layout, i, q)) for q in _passive_range(layout)])
 
 
 def renormalised(y0, y1, v0, v1, t):
@@ -365,10 +396,6 @@ def renormalised(y0, y1, v0, v1, t):
     vsum = If(v0, w0 * valof(y0), 0) + If(v1, w1 * valof(y1), 0)
     ok = gt(wsum, Fraction(1, 2))
     return Not(ok), vsum / If(ok, wsum, 1)
-
-
-def _passive_range(layout):
-    return range(NPASSIVE) if layout != "rank1" else range(1)
 
 
 def _nd_each(a, r, fn):
@@ -430,11 +457,14 @@ def _nd_outside(a, r):
     return forall(0, ln(a.x), lambda j: implies(outside(a.xp, a.x[j]), And(*[isnan(_cell(r, a.layout, j, q)) for q in _passive_range(a.layout)])), "j")
 
 
+def _shape_is(r, layout, m):
+    """the result has the data's shape with the interpolated axis replaced by the number of targets"""
+    want = layout_shape(layout, m)
+    return And(len(r.shape) == len(want), *[r.shape[k] == w for k, w in enumerate(want)])
+
+
 def _nd_shape(a, r):
-    if a.layout == "rank1":
-        return And(len(r.shape) == 1, r.shape[0] == ln(a.x))
-    want = (ln(a.x), NPASSIVE) if a.layout == "rank2,axis0" else (NPASSIVE, ln(a.x))
-    return And(len(r.shape) == 2, r.shape[0] == want[0], r.shape[1] == want[1])
+    return _shape_is(r, a.layout, ln(a.x))
 
 
 def _nd_samples(nearest):
@@ -442,10 +472,10 @@ def _nd_samples(nearest):
         import numpy as np
         out = []
         for _ in range(30 if tier == "quick" else 300):
-            lay = list(LAYOUTS)[int(rng.integers(0, 3))]
+            lay = list(ALL_LAYOUTS)[int(rng.integers(0, len(ALL_LAYOUTS)))]
             xp = _grid(rng, int(rng.integers(2, 41)), bool(rng.integers(0, 2)))
             x = _targets(rng, xp, int(rng.integers(0, 10)))
-            shape = tuple(len(xp) if d == "t" else NPASSIVE for d in LAYOUTS[lay])
+            shape = layout_shape(lay, len(xp))
             y = rng.normal(size=shape) * 10
             y[rng.random(shape) < 0.15] = np.nan
             out.append((lay, {"xp": xp, "x": x, "y": y, "layout": lay, "nearest": nearest}))
@@ -457,9 +487,7 @@ def _nd_samples(nearest):
 def _p_di(layout):
     def p(mk):
         n, m = mk.size("n"), mk.size("m")
-        dims = LAYOUTS[layout]
-        shape = tuple(n if d == "t" else NPASSIVE for d in dims)
-        return {"xp": mk.array("xp", (n,)), "y": mk.array("y", shape, "xreal"), "layout": layout, "nearest": False,
+        return {"xp": mk.array("xp", (n,)), "y": mk.array("y", layout_shape(layout, n), "xreal"), "layout": layout, "nearest": False,
                 "number_points": m, "indices_1d": mk.array("indices_1d", (1, 2, m), "int"), "weights_1d": mk.array("weights_1d", (1, 2, m), "xreal")}
     return p
 
@@ -483,11 +511,7 @@ def _di_layout(a):
     """layout of the interpolator object at a call site / of the instance"""
     if "layout" in a:
         return a.layout
-    o = a.self
-    coord = list(o.coord)
-    if len(coord) == 1:
-        return "rank1"
-    return "rank2,axis0" if coord[0] == o.interp_index_coord_name else "rank2,axis1"
+    return layout_of(a.self.coord, a.self.interp_index_coord_name)
 
 
 def _di_data(a):
@@ -511,18 +535,13 @@ def _di_value(a, r):
 
 
 def _di_shape(a, r):
-    lay = _di_layout(a)
-    m = a.number_points
-    if lay == "rank1":
-        return And(len(r.shape) == 1, r.shape[0] == m)
-    want = (m, NPASSIVE) if lay == "rank2,axis0" else (NPASSIVE, m)
-    return And(len(r.shape) == 2, r.shape[0] == want[0], r.shape[1] == want[1])
+    return _shape_is(r, _di_layout(a), a.number_points)
 
 
 def _di_native(kw, inst):
     import numpy as np
     from ocean_science_utilities.interpolate.nd_interp import NdInterpolator
-    dims = LAYOUTS[kw["layout"]]
+    dims = ALL_LAYOUTS[kw["layout"]]
     data = np.asarray(kw["y"], dtype=float)
 
     def get_data(indices, idims):
@@ -539,9 +558,9 @@ def _di_samples(rng, tier):
     import numpy as np
     out = []
     for _ in range(30 if tier == "quick" else 300):
-        lay = list(LAYOUTS)[int(rng.integers(0, 3))]
+        lay = list(ALL_LAYOUTS)[int(rng.integers(0, len(ALL_LAYOUTS)))]
         n, m = int(rng.integers(2, 20)), int(rng.integers(0, 8))
-        shape = tuple(n if d == "t" else NPASSIVE for d in LAYOUTS[lay])
+        shape = layout_shape(lay, n)
         y = rng.normal(size=shape) * 10
         y[rng.random(shape) < 0.2] = np.nan
         w1 = rng.choice([0.0, 1.0, 0.5, 0.25, 0.75, 0.3], m)
@@ -562,7 +581,7 @@ def _di_result(mk, a):
 
 data_interpolator = Contract(
     ND + "_data_interpolator",
-    instances=[(lay, _p_di(lay)) for lay in LAYOUTS],
+    instances=[(lay, _p_di(lay)) for lay in ALL_LAYOUTS],
     requires=[("nodes", lambda a: ln(a.xp) >= 1), ("points", lambda a: a.number_points >= 0),
               ("indices_in_range", lambda a: forall(0, a.number_points, lambda j: And(a.indices_1d[0, 0, j] >= 0, a.indices_1d[0, 0, j] < ln(a.xp),
                                                                                       a.indices_1d[0, 1, j] >= 0, a.indices_1d[0, 1, j] < ln(a.xp)), "j"))],
@@ -582,8 +601,7 @@ def _call_site_ns(a):
     y = wrap(o._c, o._i, st, ds[o._o.fields["get_data"].closure.vars["variable"]])
     name = o.interp_index_coord_name
     xp = [c[1] for c in o.data_coordinates if c[0] == name][0]
-    coord = list(o.coord)
-    lay = "rank1" if len(coord) == 1 else ("rank2,axis0" if coord[0] == name else "rank2,axis1")
+    lay = layout_of(o.coord, name)
     return NS({"y": y, "xp": xp, "layout": lay, "number_points": a.number_points, "indices_1d": a.indices_1d, "weights_1d": a.weights_1d})
 
 
@@ -593,7 +611,7 @@ def data_interpolator_callee():
     adapt = lambda fn: (lambda a, *rest: fn(_call_site_ns(a), *rest))
     return CalleeContract(data_interpolator.target, _di_result, [(l, adapt(f)) for l, f in data_interpolator.requires],
                           [(l, adapt(f)) for l, f in data_interpolator.ensures], assumed=False,
-                          note="verified in C13 as NdInterpolator._data_interpolator (rank 1, rank 2 both axis positions)")
+                          note="verified in C13 as NdInterpolator._data_interpolator (ranks 1-3 every axis position, rank 4 axis 1)")
 
 
 def _nd_contract(nearest):
@@ -608,7 +626,7 @@ def _nd_contract(nearest):
     w_inst = NEAR if nearest else LIN
     return Contract(
         ND + "interpolate", label=f"NdInterpolator.interpolate.{mode}",
-        instances=[(lay, _p_nd(lay, nearest)) for lay in LAYOUTS],
+        instances=[(lay, _p_nd(lay, nearest)) for lay in ALL_LAYOUTS],
         requires=GRID_REQ, ensures=ens, call=_nd_call,
         callees={enclosing.target: callee_of(enclosing, "", {"period": None, "regular_xp": False}),
                  weights.target: callee_of(weights, w_inst, {"period": None, "extrapolate_left": False, "extrapolate_right": False,
@@ -621,7 +639,7 @@ nd_linear, nd_nearest = _nd_contract(False), _nd_contract(True)
 CONTRACTS = [enclosing, weights, data_interpolator, nd_linear, nd_nearest]
 import contracts.C13_bounded as _B
 BOUNDED = [Bounded("spectrum_interpolation", _B.spectrum_interpolation), Bounded("dataset_axes_rank_1_to_4", _B.dataset_axes,
-                   "ranks 3 and 4, every axis position, passive sizes 1..3, pass-through, operands unmodified - through interpolate_dataset_along_axis"),
+                   "ranks 1..4, every axis position, passive sizes 1..3 (unequal), pass-through, operands unmodified - through interpolate_dataset_along_axis"),
            Bounded("time_axes_and_grid", _B.time_axes_and_grids,
                    "datetime64 axes (to_datetime64 of the targets), interpolate_dataset_grid applies the coordinates in order and forwards nearest_neighbour")]
 TRUSTED = ["targets and grid nodes are finite (no NaN / inf coordinates); infinite data values are outside the model (contract option finite_reals)",
@@ -631,8 +649,10 @@ TRUSTED = ["targets and grid nodes are finite (no NaN / inf coordinates); infini
            "a single integer index array among slices gathers along that axis in place (numpy advanced indexing with one index array)",
            "the generator _next_point is evaluated eagerly (it only reads indices_1d / weights_1d, which the consuming loop does not write)",
            "np.rint rounds half to even; np.all(axis=...) is the conjunction over the reduced axes",
-           "rank-2 instances: passive axis of length 2 with symbolic values (value-complete, bounded in that length); ranks 3, 4 only in the bounded tier"]
+           "instances of rank 2, 3 (every position of the interpolated axis) and 4 (interpolated axis second): every passive axis has length 2 with symbolic "
+           "values (value-complete, bounded in that length; equal passive lengths cannot tell the passive axes apart - unequal lengths 1..3 and the other "
+           "rank-4 positions are in the bounded tier)"]
 EXPLANATION = ("kernels proved for all grid lengths, target counts and values, ascending and descending: enclosing_points_1d (bracket, uniqueness, clipping), "
                "interpolation_weights_1d (linear / nearest / extrapolating), NdInterpolator._data_interpolator (combination of two neighbours with the NaN rule) and "
-               "NdInterpolator.interpolate executed over the real get_data closure of dataset.py: value with slice-level NaN renormalisation, linear when both "
+               "NdInterpolator.interpolate (ranks 1-3 with the interpolated axis in every position, rank 4 with it second) executed over the real get_data closure of dataset.py: value with slice-level NaN renormalisation, linear when both "
                "neighbours are present, between the neighbouring values, exact at nodes, missing outside; witnesses go through interpolate_dataset_along_axis on xarray data")
